@@ -694,6 +694,140 @@ theorem failed_startup_keeps_untouched_entries (c : Circ) (h : Fresh0 c) (cal : 
     rw [hst, h2]
     exact cleanUnused_keeps _ _ _ (Or.inr ⟨b, List.mem_of_getElem? h1, hp, rfl⟩)
 
+/-! ### a storage that fails (`Faults`: which operations of the application's mapping raise at the moment) -/
+
+/-- a failing WRITE is suppressed by `save_persistent_state`: no exception leaves it as long as the `pop` that
+    removes the stale entry works, and then no stale entry stays -/
+theorem write_fault_is_suppressed (f : Faults) (s : Storage) (b : Blk) (hr : f.remove = false) :
+    (saveBlkF f s b).2 = false ∧
+    (f.write = true → b.persistent = true → (saveBlkF f s b).1.get? b.key = none) := by
+  unfold saveBlkF
+  cases hp : b.persistent <;> cases hg : getState b.kind b.dyn <;> cases hw : f.write <;>
+    simp [hr, Storage.get?_erase_same]
+
+/-- …but the `pop` itself is not protected: with writes AND removals failing the exception leaves the method
+    (what the code does; "Suppress errors" of the docstring does not hold for this case) -/
+theorem double_fault_leaves_save (f : Faults) (s : Storage) (b : Blk) (hw : f.write = true) (hr : f.remove = true)
+    (hp : b.persistent = true) : saveBlkF f s b = (s, true) := by
+  unfold saveBlkF
+  cases hg : getState b.kind b.dyn <;> simp [hp, hw, hr]
+
+/-- `event_unaffected_by_storage_fault`: on a storage whose writes (and reads, and iteration) fail — as long as
+    `pop` works — an event gives the caller exactly what it gives on a working storage: the handler's result or
+    the handler's exception, never an exception of the storage; the blocks and the phase of the circuit are those
+    of the fault-free run (the simulation is not aborted by the fault) -/
+theorem event_unaffected_by_storage_fault (c c' : Circ) (f : Faults) (hr : f.remove = false)
+    (cal : Val → Option Bool) (i : Nat) (ev : Ev) (r : ResF) (h : c.eventF f cal i ev = some (c', r)) :
+    ∃ c0 r0, c.event cal i ev = some (c0, r0) ∧ r = .res r0 ∧ c'.blocks = c0.blocks ∧ c'.phase = c0.phase := by
+  unfold Circ.eventF at h
+  cases he : c.event cal i ev with
+  | none => rw [he] at h; simp at h
+  | some p =>
+    obtain ⟨c0, r0⟩ := p
+    rw [he] at h
+    refine ⟨c0, r0, rfl, ?_⟩
+    cases r0 with
+    | ret v =>
+      simp only [Option.some.injEq] at h
+      unfold resave at h
+      split at h
+      · next b' hb' =>
+        split at h
+        · have hs := (write_fault_is_suppressed f c.store b' hr).1
+          cases hx : saveBlkF f c.store b' with
+          | mk st x =>
+            rw [hx] at hs h
+            simp only at hs
+            subst hs
+            simp only [Prod.mk.injEq] at h
+            obtain ⟨rfl, rfl⟩ := h
+            exact ⟨rfl, rfl, rfl⟩
+        · simp only [Prod.mk.injEq] at h
+          obtain ⟨rfl, rfl⟩ := h
+          exact ⟨rfl, rfl, rfl⟩
+      · simp only [Prod.mk.injEq] at h
+        obtain ⟨rfl, rfl⟩ := h
+        exact ⟨rfl, rfl, rfl⟩
+    | handlerError => simp only [Option.some.injEq, Prod.mk.injEq] at h; obtain ⟨rfl, rfl⟩ := h; exact ⟨rfl, rfl, rfl⟩
+    | paramError => simp only [Option.some.injEq, Prod.mk.injEq] at h; obtain ⟨rfl, rfl⟩ := h; exact ⟨rfl, rfl, rfl⟩
+    | unknown => simp only [Option.some.injEq, Prod.mk.injEq] at h; obtain ⟨rfl, rfl⟩ := h; exact ⟨rfl, rfl, rfl⟩
+
+/-- `next_save_after_outage_stores_state`: once the storage works again, the next handled event of a block with
+    `persistent and sync_state` leaves the block's CURRENT state in its slot — whatever the outage did to the slot -/
+theorem next_save_after_outage_stores_state (c c' : Circ) (cal : Val → Option Bool) (i : Nat) (ev : Ev) (v : Val)
+    (b' : Blk) (h : c.eventF {} cal i ev = some (c', .res (.ret v))) (hb' : c'.blocks[i]? = some b')
+    (hp : b'.persistent = true) (hs : b'.sync = true) (hi : b'.dyn.inited = true) :
+    c'.store.get? b'.key = getState b'.kind b'.dyn := by
+  unfold Circ.eventF at h
+  cases he : c.event cal i ev with
+  | none => rw [he] at h; simp at h
+  | some p =>
+    obtain ⟨c0, r0⟩ := p
+    rw [he] at h
+    cases r0 with
+    | ret v0 =>
+      simp only [Option.some.injEq] at h
+      unfold resave at h
+      split at h
+      · next b0 hb0 =>
+        rw [saveBlkF_nofault] at h
+        split at h
+        · simp only [Prod.mk.injEq] at h
+          obtain ⟨rfl, _⟩ := h
+          simp only at hb'
+          rw [hb0] at hb'
+          simp only [Option.some.injEq] at hb'
+          subst hb'
+          exact saveBlk_same c.store b0 hp
+        · next hc =>
+          simp only [Prod.mk.injEq] at h
+          obtain ⟨rfl, _⟩ := h
+          rw [hb0] at hb'
+          simp only [Option.some.injEq] at hb'
+          subst hb'
+          simp [hp, hs, hi] at hc
+      · next hn =>
+        simp only [Prod.mk.injEq] at h
+        obtain ⟨rfl, _⟩ := h
+        rw [hn] at hb'; simp at hb'
+    | handlerError => simp at h
+    | paramError => simp at h
+    | unknown => simp at h
+
+/-- the stop on a failing storage, what the code does: a write fault of a started circuit always ends in an
+    exception that leaves `run_forever` (of a save's `pop`, or of the stop-time write, which is not protected) —
+    and such an exception leaves BEFORE the clean-up: no block gets its `stop()`, nothing is awaited -/
+theorem stop_on_failing_storage (c : Circ) (f : Faults) (t : Time)
+    (hph : c.phase = .running ∨ c.phase = .aborted ∨ c.phase = .failed) (hok : c.startOk = true) :
+    (f.write = true → (c.stopBeginF f t).2 = true) ∧
+    ((c.stopBeginF f t).2 = true → (c.stopBeginF f t).1.blocks = c.blocks ∧ (c.stopBeginF f t).1.phase = .stopped) := by
+  unfold Circ.stopBeginF
+  rcases hph with h | h | h <;> cases hw : f.write <;>
+    cases hx : saveAllF f c.store c.blocks with
+    | mk s x => cases x <;> simp [h, hok, hw, hx]
+
+/-- the start on a storage whose reads fail: an entry that cannot be read is treated as absent (the error is
+    suppressed, the block is initialised normally), while an exception of `_check_persistent_data` — the read of
+    the stop time, `keys()`, a `del` of the purge: none is protected — ends the start before any block is started
+    and leaves blocks and storage as they were -/
+theorem start_on_failing_storage (c : Circ) (f : Faults) (cal : Val → Option Bool) (now : Time)
+    (hidle : c.phase = .idle) :
+    (∀ b : Blk, b.key ∈ f.read → ∀ ts, load b (c.store.filter (fun p => !(f.read.contains p.1))) ts cal now = none) ∧
+    (checkRaises f c.store c.blocks = true →
+      (c.startF f cal now).phase = .stopped ∧ (c.startF f cal now).blocks = c.blocks ∧
+      (c.startF f cal now).store = c.store ∧ (c.startF f cal now).startOk = false) := by
+  constructor
+  · intro b hb ts
+    unfold load
+    have : Storage.get? (c.store.filter (fun p => !(f.read.contains p.1))) b.key = none := by
+      rw [Storage.get?_filterKey (fun k => !(f.read.contains k))]
+      simp [hb]
+    rw [this]
+    split <;> rfl
+  · intro hc
+    unfold Circ.startF
+    simp [hidle, hc]
+
 /-! ### non-vacuity: a concrete circuit (an Input and a timed FSM whose timed event is refused) -/
 
 def exCls : FsmCls :=
@@ -791,77 +925,128 @@ theorem load_only_if_translated_decision (b : Persist.Blk) (store : Persist.Stor
   rfl
 
 /-! #### `AddonPersistence.event`, `save_persistent_state`, `Circuit._check_persistent_data` and the save / stamp part
-of `Circuit.run_forever`, translated by tools/py2lean_persist.py (Gen/TranslatedPersist2.lean) -/
+of `Circuit.run_forever`, translated by tools/py2lean_persist.py (Gen/TranslatedPersist2.lean).  Every access to the
+storage is a primitive that MAY RAISE, so its position relative to the `try` blocks is part of the translation. -/
 
-open Persist Gen.TrP2 in
+open Persist Gen.TrP2
+
 /-- meaning of the primitives of `save_persistent_state` on the storage: `e` is what `get_state()` returns
-    (`none`: it raises) -/
-def runSave (key : String) (e : Option Persist.Entry) : List Gen.TrP2.Prim → Persist.Storage → Persist.Storage
+    (`none`: it raises); an operation that `fails` has no effect; the flag: an exception left the method -/
+def runSave (key : String) (e : Option Entry) : List Prim → Storage × Bool → Storage × Bool
   | [], s => s
-  | .setItem :: r, s => runSave key e r (match e with | some x => s.set key x | none => s)
-  | .popKey :: r, s => runSave key e r (s.erase key)
+  | .setItem :: r, (s, x) => runSave key e r ((match e with | some v => s.set key v | none => s), x)
+  | .popKey :: r, (s, x) => runSave key e r (s.erase key, x)
+  | .propagate :: _, (s, _) => (s, true)
   | _ :: r, s => runSave key e r s
 
-/-- (b) the translated `save_persistent_state` IS the model's `saveBlk`: nothing unless persistent; the state is
-    stored under the key; when `get_state()` raises the key is removed -/
-theorem translated_persist_save_is_model (s : Persist.Storage) (b : Persist.Blk) :
-    runSave b.key (Persist.getState b.kind b.dyn)
-      (Gen.TrP2.saveActs b.persistent (Persist.getState b.kind b.dyn).isNone) s = Persist.saveBlk s b := by
-  unfold Gen.TrP2.saveActs Persist.saveBlk
-  cases hp : b.persistent <;> cases hg : Persist.getState b.kind b.dyn <;> simp [runSave]
+/-- (b) the translated `save_persistent_state` on a storage with faults `f` IS the model's `saveBlkF`: nothing
+    unless persistent; the state is stored under the key; an exception of `get_state()` OR OF THE WRITE is
+    suppressed and the entry removed; only an exception of that removing `pop` leaves the method -/
+theorem translated_persist_save_is_model (f : Faults) (s : Storage) (b : Blk) :
+    runSave b.key (getState b.kind b.dyn)
+      (saveActs b.persistent (getState b.kind b.dyn).isNone f.write f.remove) (s, false) = saveBlkF f s b := by
+  unfold saveActs saveBlkF
+  cases hp : b.persistent <;> cases hg : getState b.kind b.dyn <;> cases hw : f.write <;> cases hr : f.remove <;>
+    simp [runSave]
 
-/-- the wrapper's state: the block's `persistent` flag and the storage -/
+/-- …on a working storage that is `saveBlk` -/
+theorem translated_persist_save_without_faults (s : Storage) (b : Blk) :
+    runSave b.key (getState b.kind b.dyn) (saveActs b.persistent (getState b.kind b.dyn).isNone false false) (s, false)
+      = (saveBlk s b, false) := by
+  have := translated_persist_save_is_model {} s b
+  rw [saveBlkF_nofault] at this
+  exact this
+
+/-- the wrapper's state: the block's `persistent` flag, the storage, "an exception leaves `event()` although the
+    handler returned" -/
 structure WSt where
   persistent : Bool
-  store : Persist.Storage
+  store : Storage
+  raised : Bool := false
 
-/-- meaning of the primitives of `AddonPersistence.event`; `b` is the block as the handler left it; the
-    `save` primitive is the TRANSLATED `save_persistent_state` -/
-def runEvent (b : Persist.Blk) : List Gen.TrP2.Prim → WSt → WSt
+/-- meaning of the primitives of `AddonPersistence.event`; `b` is the block as the handler left it; the `save`
+    primitive — also when it `fails` — is the TRANSLATED `save_persistent_state` on the storage with faults `f` -/
+def runEvent (f : Faults) (b : Blk) : List Prim → WSt → WSt
   | [], s => s
-  | .disable :: r, s => runEvent b r { s with persistent := false }
+  | .disable :: r, s => runEvent f b r { s with persistent := false }
   | .save :: r, s =>
-    runEvent b r ⟨s.persistent, runSave b.key (Persist.getState b.kind b.dyn)
-      (Gen.TrP2.saveActs s.persistent (Persist.getState b.kind b.dyn).isNone) s.store⟩
-  | _ :: r, s => runEvent b r s
+    runEvent f b r { s with store := (runSave b.key (getState b.kind b.dyn)
+      (saveActs s.persistent (getState b.kind b.dyn).isNone f.write f.remove) (s.store, false)).1 }
+  | .fails .save :: r, s =>
+    runEvent f b r { s with store := (runSave b.key (getState b.kind b.dyn)
+      (saveActs s.persistent (getState b.kind b.dyn).isNone f.write f.remove) (s.store, false)).1 }
+  | .propagate :: _, s => { s with raised := true }
+  | _ :: r, s => runEvent f b r s
 
-/-- (a) success path: after `super().event` returned, the translated wrapper saves exactly when the model's
-    `syncSave` does — `persistent ∧ sync_state ∧ is_initialized()` (the repair 85849b6) — and returns -/
-theorem translated_persist_event_success_is_model (s : Persist.Storage) (b : Persist.Blk) (ready : Bool) :
-    runEvent b (Gen.TrP2.eventActs false b.persistent ready b.sync b.dyn.inited) ⟨b.persistent, s⟩
-      = ⟨b.persistent, Persist.syncSave s b⟩ ∧
-    (Gen.TrP2.eventActs false b.persistent ready b.sync b.dyn.inited).head? = some .superEvent ∧
-    (Gen.TrP2.eventActs false b.persistent ready b.sync b.dyn.inited).getLast? = some .ret := by
-  have hsave := translated_persist_save_is_model s b
-  unfold Gen.TrP2.eventActs Persist.syncSave
+/-- (a) success path on a storage with faults `f`: after `super().event` returned, the wrapper saves exactly when
+    `persistent ∧ sync_state ∧ is_initialized()` (the repair 85849b6); the storage afterwards is the model's
+    `saveBlkF`, and an exception leaves `event()` iff that save lets one out -/
+theorem translated_persist_event_success_is_model (f : Faults) (s : Storage) (b : Blk) (ready : Bool) :
+    runEvent f b (eventActs false b.persistent ready b.sync b.dyn.inited (saveBlkF f s b).2) ⟨b.persistent, s, false⟩
+      = (if b.persistent && b.sync && b.dyn.inited then ⟨b.persistent, (saveBlkF f s b).1, (saveBlkF f s b).2⟩
+         else ⟨b.persistent, s, false⟩) := by
+  have hsave := translated_persist_save_is_model f s b
+  unfold eventActs
   cases hp : b.persistent <;> cases hs : b.sync <;> cases hi : b.dyn.inited <;>
-    simp_all [runEvent]
+    cases hx : (saveBlkF f s b).2 <;> simp_all [runEvent]
+
+/-- …on a working storage that is the model's `syncSave`, and the handler's result is returned -/
+theorem translated_persist_event_success_without_faults (s : Storage) (b : Blk) (ready : Bool) :
+    runEvent {} b (eventActs false b.persistent ready b.sync b.dyn.inited false) ⟨b.persistent, s, false⟩
+      = ⟨b.persistent, syncSave s b, false⟩ ∧
+    (eventActs false b.persistent ready b.sync b.dyn.inited false).head? = some .superEvent ∧
+    (eventActs false b.persistent ready b.sync b.dyn.inited false).getLast? = some .ret := by
+  have h := translated_persist_event_success_is_model {} s b ready
+  rw [saveBlkF_nofault] at h
+  refine ⟨?_, ?_, ?_⟩
+  · rw [h]; unfold syncSave; split <;> rfl
+  · unfold eventActs; simp
+  · unfold eventActs; cases b.persistent <;> cases b.sync <;> cases b.dyn.inited <;> simp
 
 /-- (a) exception path: nothing is saved, persistence is switched off iff the block is persistent and the
     circuit is not ready (`persistent := persistent ∧ ready`, the model's rule), the exception is re-raised -/
-theorem translated_persist_event_failure_is_model (s : Persist.Storage) (b : Persist.Blk)
-    (p ready sy ini : Bool) :
-    runEvent b (Gen.TrP2.eventActs true p ready sy ini) ⟨p, s⟩ = ⟨p && ready, s⟩ ∧
-    (Gen.TrP2.eventActs true p ready sy ini).getLast? = some .reraise := by
-  unfold Gen.TrP2.eventActs
+theorem translated_persist_event_failure_is_model (f : Faults) (s : Storage) (b : Blk)
+    (p ready sy ini sr : Bool) :
+    runEvent f b (eventActs true p ready sy ini sr) ⟨p, s, false⟩ = ⟨p && ready, s, false⟩ ∧
+    (eventActs true p ready sy ini sr).getLast? = some .reraise := by
+  unfold eventActs
   cases p <;> cases ready <;> simp [runEvent]
 
-/-- (a) the model's run-time wrapper `Circ.event` IS the translated wrapper: with `superRaises` = "the handler's
-    result is an exception", `ready` = `is_ready()` after the event, the block's flag and the storage after
-    `Circ.event` are what the translated action list computes (blocks are initialised at run time) -/
-theorem translated_persist_event_is_circ_event (c c' : Persist.Circ) (cal : Val → Option Bool) (i : Nat)
-    (ev : Persist.Ev) (r : Persist.Res) (b b' : Persist.Blk)
+/-- (a) the model's wrapper on a failing storage (`resave`, used by `Circ.eventF` / `Circ.fireF`) IS the
+    translated wrapper: same storage, and `saveError` exactly when an exception leaves the translated `event()` -/
+theorem translated_persist_event_on_failing_storage_is_model (c c' : Circ) (f : Faults) (i : Nat) (v : Val)
+    (b' : Blk) (hb' : c'.blocks[i]? = some b') (ready : Bool) :
+    resave c c' f i v =
+      (let w := runEvent f b' (eventActs false b'.persistent ready b'.sync b'.dyn.inited (saveBlkF f c.store b').2)
+        ⟨b'.persistent, c.store, false⟩
+       if b'.persistent && b'.sync && b'.dyn.inited then
+         ({ c' with store := w.store }, if w.raised then .saveError else .res (.ret v))
+       else (c', .res (.ret v))) := by
+  have h := translated_persist_event_success_is_model f c.store b' ready
+  unfold resave
+  simp only [hb', h]
+  cases hc : (b'.persistent && b'.sync && b'.dyn.inited)
+  · simp
+  · simp only [if_true]
+    cases hx : saveBlkF f c.store b' with
+    | mk s x => cases x <;> simp
+
+/-- (a) the model's run-time wrapper `Circ.event` IS the translated wrapper on a working storage: with
+    `superRaises` = "the handler's result is an exception", `ready` = `is_ready()` after the event, the block's flag
+    and the storage after `Circ.event` are what the translated action list computes -/
+theorem translated_persist_event_is_circ_event (c c' : Circ) (cal : Val → Option Bool) (i : Nat)
+    (ev : Ev) (r : Res) (b b' : Blk)
     (h : c.event cal i ev = some (c', r)) (hb : c.blocks[i]? = some b) (hb' : c'.blocks[i]? = some b')
     (hin : b'.dyn.inited = true) :
-    runEvent b' (Gen.TrP2.eventActs (match r with | .ret _ => false | _ => true) b.persistent c'.ready b.sync
-      b'.dyn.inited) ⟨b.persistent, c.store⟩ = ⟨b'.persistent, c'.store⟩ := by
+    runEvent {} b' (eventActs (match r with | .ret _ => false | _ => true) b.persistent c'.ready b.sync
+      b'.dyn.inited false) ⟨b.persistent, c.store, false⟩ = ⟨b'.persistent, c'.store, false⟩ := by
   have hlen : i < c.blocks.length := (List.getElem?_eq_some_iff.mp hb).1
-  unfold Persist.Circ.event at h
+  unfold Circ.event at h
   split at h
   · simp at h
   · rw [hb] at h
     simp only at h
-    generalize Persist.blockEvent b.kind cal c.now b.dyn ev = p at h
+    generalize blockEvent b.kind cal c.now b.dyn ev = p at h
     obtain ⟨d, r0⟩ := p
     cases r0 with
     | ret v =>
@@ -869,39 +1054,51 @@ theorem translated_persist_event_is_circ_event (c c' : Persist.Circ) (cal : Val 
       obtain ⟨rfl, rfl⟩ := h
       simp only [List.getElem?_set, hlen, if_true, Option.some.injEq] at hb'
       subst hb'
-      have h1 := fun rd => (translated_persist_event_success_is_model c.store { b with dyn := d } rd).1
+      have h1 := fun rd => (translated_persist_event_success_without_faults c.store { b with dyn := d } rd).1
       simp only at h1 hin
       rw [h1]
-      simp only [Persist.syncSave, hin, Bool.and_true]
+      simp only [syncSave, hin, Bool.and_true]
     | handlerError =>
       simp only [Option.some.injEq, Prod.mk.injEq] at h
       obtain ⟨rfl, rfl⟩ := h
       simp only [List.getElem?_set, hlen, if_true, Option.some.injEq] at hb'
       subst hb'
-      rw [(translated_persist_event_failure_is_model c.store _ b.persistent _ b.sync _).1]
-      simp only [Persist.Circ.ready]
+      rw [(translated_persist_event_failure_is_model {} c.store _ b.persistent _ b.sync _ false).1]
+      simp only [Circ.ready]
       cases hp : c.phase <;> simp
     | paramError =>
       simp only [Option.some.injEq, Prod.mk.injEq] at h
       obtain ⟨rfl, rfl⟩ := h
       simp only [List.getElem?_set, hlen, if_true, Option.some.injEq] at hb'
       subst hb'
-      rw [(translated_persist_event_failure_is_model c.store _ b.persistent _ b.sync _).1]
+      rw [(translated_persist_event_failure_is_model {} c.store _ b.persistent _ b.sync _ false).1]
       rfl
     | unknown =>
       simp only [Option.some.injEq, Prod.mk.injEq] at h
       obtain ⟨rfl, rfl⟩ := h
       simp only [List.getElem?_set, hlen, if_true, Option.some.injEq] at hb'
       subst hb'
-      rw [(translated_persist_event_failure_is_model c.store _ b.persistent _ b.sync _).1]
+      rw [(translated_persist_event_failure_is_model {} c.store _ b.persistent _ b.sync _ false).1]
       rfl
 
-/-- (c) `_check_persistent_data` with a storage: `persistent_ts` is the model's `readTs`, and the entries
-    that remain are exactly the model's `cleanUnused` (keys of persistent blocks and reserved `edzed-…` keys) -/
-theorem translated_persist_check_is_model (s : Persist.Storage) (bs : List Persist.Blk) :
-    ∃ deleted, Gen.TrP2.checkPersistentData true (s.get? Persist.stopKey) (s.map (·.1)) bs
-        = .checked (Persist.readTs s) deleted ∧
-      Persist.cleanUnused s bs = s.filter (fun p => !(deleted.contains p.1)) := by
+/-- the read of the stop time on a storage with faults -/
+def stampRead (f : Faults) (s : Storage) : StampRead :=
+  if f.read.contains stopKey then .failed else
+  match s.get? stopKey with
+  | none => .missing
+  | some e => .found e
+
+/-- (c) `_check_persistent_data` with a storage that may fail: it raises exactly when the model's `checkRaises` says
+    so (an unreadable stop time, a failing `keys()`, a failing `del` when there is something to purge — none of
+    them is caught); otherwise `persistent_ts` is the model's `readTs` and the entries that remain are exactly the
+    model's `cleanUnused` (keys of persistent blocks and reserved `edzed-…` keys) -/
+theorem translated_persist_check_is_model (f : Faults) (s : Storage) (bs : List Blk) :
+    if checkRaises f s bs then
+      checkPersistentData true (stampRead f s) (s.map (·.1)) bs f.iter f.remove = .error
+    else
+      ∃ deleted, checkPersistentData true (stampRead f s) (s.map (·.1)) bs f.iter f.remove
+          = .checked (readTs s) deleted ∧
+        cleanUnused s bs = s.filter (fun p => !(deleted.contains p.1)) := by
   have hfold : ∀ (c : String → Bool) (l acc : List String),
       l.foldl (fun del key => if c key then del ++ [key] else del) acc = acc ++ l.filter c := by
     intro c l
@@ -912,52 +1109,130 @@ theorem translated_persist_check_is_model (s : Persist.Storage) (bs : List Persi
       simp only [List.foldl_cons, List.filter_cons]
       cases hc : c a <;> simp [ih]
   have side : ∀ (d : String → Bool), (∀ k, d k = !(k.startsWith "edzed-")) →
-      Persist.cleanUnused s bs = s.filter (fun p => !(((s.map (·.1)).filter
+      cleanUnused s bs = s.filter (fun p => !(((s.map (·.1)).filter
         (fun k => !((bs.filter fun blk => blk.persistent).map fun blk => blk.key).contains k)).filter d).contains p.1) := by
     intro d hd
-    unfold Persist.cleanUnused
+    unfold cleanUnused
     apply List.filter_congr
     intro p hp
     have hk' : ∃ e, (p.1, e) ∈ s := ⟨p.2, hp⟩
-    simp only [Persist.reserved, Persist.persistentKeys, List.contains_eq_mem, List.mem_filter, List.mem_map, hd]
+    simp only [reserved, persistentKeys, List.contains_eq_mem, List.mem_filter, List.mem_map, hd]
     cases h1 : p.1.startsWith "edzed-" <;>
       by_cases h2 : p.1 ∈ List.map (fun blk => blk.key) (List.filter (fun blk => blk.persistent) bs) <;>
       simp_all
-  unfold Gen.TrP2.checkPersistentData Persist.readTs
+  -- "there is something to purge" = the translated list of deleted keys is not empty
+  have hany : ∀ (d : String → Bool), (∀ k, d k = !(k.startsWith "edzed-")) →
+      (((s.map (·.1)).filter (fun k => !((bs.filter fun blk => blk.persistent).map fun blk => blk.key).contains k)).filter d).isEmpty
+        = !(s.any (fun p => !(reserved p.1 || (persistentKeys bs).contains p.1))) := by
+    intro d hd
+    have hpk : persistentKeys bs = (bs.filter fun blk => blk.persistent).map fun blk => blk.key := rfl
+    cases hany : s.any (fun p => !(reserved p.1 || (persistentKeys bs).contains p.1))
+    · -- nothing to purge
+      simp only [Bool.not_false, List.isEmpty_iff, List.filter_eq_nil_iff]
+      intro k hk
+      simp only [List.mem_filter, List.mem_map] at hk
+      obtain ⟨⟨p, hp, rfl⟩, hnot⟩ := hk
+      have := List.any_eq_false.mp hany p hp
+      rw [hd]
+      cases hq : (reserved p.1 || (persistentKeys bs).contains p.1)
+      · rw [hq] at this; simp at this
+      · rcases Bool.or_eq_true_iff.mp hq with h1 | h1
+        · simp only [reserved] at h1; simp [h1]
+        · rw [hpk] at h1; rw [h1] at hnot; simp at hnot
+    · obtain ⟨p, hp, hP⟩ := List.any_eq_true.mp hany
+      simp only [Bool.not_eq_true', Bool.or_eq_false_iff] at hP
+      have hmem : p.1 ∈ ((s.map (·.1)).filter
+          (fun k => !((bs.filter fun blk => blk.persistent).map fun blk => blk.key).contains k)).filter d := by
+        simp only [List.mem_filter, List.mem_map]
+        refine ⟨⟨⟨p, hp, rfl⟩, ?_⟩, ?_⟩
+        · rw [← hpk, hP.2]; rfl
+        · rw [hd]; simp only [reserved] at hP; rw [hP.1]; rfl
+      simp only [Bool.not_true]
+      cases hX : ((s.map (·.1)).filter
+          (fun k => !((bs.filter fun blk => blk.persistent).map fun blk => blk.key).contains k)).filter d with
+      | nil => rw [hX] at hmem; cases hmem
+      | cons a r => rfl
+  unfold checkPersistentData readTs checkRaises stampRead
   simp only [Bool.not_true, Bool.false_eq_true, if_false, hfold, List.nil_append]
-  rcases hst : s.get? Persist.stopKey with _ | e
-  · exact ⟨_, rfl, side _ (fun k => by cases h : k.startsWith "edzed-" <;> simp [h])⟩
-  · cases e <;> exact ⟨_, rfl, side _ (fun k => by cases h : k.startsWith "edzed-" <;> simp [h])⟩
+  cases hrd : f.read.contains stopKey
+  · cases hit : f.iter
+    · cases hrm : f.remove
+      · simp only [Bool.false_or, Bool.false_and, Bool.or_false, Bool.false_eq_true, if_false]
+        rcases hst : s.get? stopKey with _ | e
+        · exact ⟨_, rfl, side _ (fun k => by cases h : k.startsWith "edzed-" <;> simp [h])⟩
+        · cases e <;> exact ⟨_, rfl, side _ (fun k => by cases h : k.startsWith "edzed-" <;> simp [h])⟩
+      · simp only [Bool.false_or, Bool.true_and, Bool.or_false]
+        have hh := hany (fun key => !(key.startsWith "edzed-")) (fun k => rfl)
+        cases hne : s.any (fun p => !(reserved p.1 || (persistentKeys bs).contains p.1))
+        · rw [hne] at hh
+          simp only [Bool.false_eq_true, if_false]
+          rcases hst : s.get? stopKey with _ | e
+          · simp only [hh, Bool.not_true, Bool.false_eq_true, if_false]
+            exact ⟨_, rfl, side _ (fun k => by cases h : k.startsWith "edzed-" <;> simp [h])⟩
+          · cases e <;> simp only [hh, Bool.not_true, Bool.false_eq_true, if_false] <;>
+              exact ⟨_, rfl, side _ (fun k => by cases h : k.startsWith "edzed-" <;> simp [h])⟩
+        · rw [hne] at hh
+          simp only [Bool.not_true] at hh
+          simp only [if_true]
+          rcases hst : s.get? stopKey with _ | e
+          · simp only [hh, Bool.not_false, Bool.and_self, if_true]; simp
+          · cases e <;> (simp only [hh, Bool.not_false, Bool.and_self, if_true]; simp)
+    · simp only [Bool.false_or, Bool.true_or, if_true]
+      rcases hst : s.get? stopKey with _ | e
+      · rfl
+      · cases e <;> rfl
+  · simp
 
 /-- (c) without a storage nothing is read or removed: every persistent block gets `persistent = False` -/
-theorem translated_persist_check_without_storage (st : Option Persist.Entry) (ks : List String)
-    (bs : List Persist.Blk) :
-    Gen.TrP2.checkPersistentData false st ks bs = .noStorage (bs.filter (·.persistent)) := by
-  unfold Gen.TrP2.checkPersistentData
+theorem translated_persist_check_without_storage (st : StampRead) (ks : List String)
+    (bs : List Blk) (ir dr : Bool) :
+    checkPersistentData false st ks bs ir dr = .noStorage (bs.filter (·.persistent)) := by
+  unfold checkPersistentData
   cases h : (bs.filter (·.persistent)) <;> simp_all
 
-/-- meaning of the primitives of the stop fragment, up to the first `await` of the clean-up -/
-def runStop (t : Nat) : List Gen.TrP2.Prim → Persist.Circ → Persist.Circ
+/-- meaning of the primitives of the stop fragment on a storage with faults `f`, up to the first `await` of the
+    clean-up; the flag: an exception leaves `run_forever` BEFORE the clean-up -/
+def runStop (f : Faults) (t : Nat) : List Prim → Circ × Bool → Circ × Bool
   | [], c => c
-  | .saveAll :: r, c => runStop t r { c with store := Persist.saveAll c.store c.blocks }
-  | .stamp :: r, c => runStop t r { c with store := c.store.set Persist.stopKey (.ts t) }
-  | .cleanup :: _, c => { c with now := t, phase := if c.phase == .failed then .stoppingF else .stopping }
-  | _ :: r, c => runStop t r c
+  | .saveAll :: r, (c, x) => runStop f t r ({ c with store := (saveAllF f c.store c.blocks).1 }, x)
+  | .fails .saveAll :: r, (c, x) => runStop f t r ({ c with store := (saveAllF f c.store c.blocks).1 }, x)
+  | .stamp :: r, (c, x) => runStop f t r ({ c with store := c.store.set stopKey (.ts t) }, x)
+  | .cleanup :: _, (c, x) =>
+    ({ c with now := t, phase := if c.phase == .failed then .stoppingF else .stopping }, x)
+  | .propagate :: _, (c, _) => ({ c with now := t, phase := .stopped }, true)
+  | _ :: r, c => runStop f t r c
 
-/-- (d) ORDER: all saves, then the stop time, then the first await of the clean-up — and nothing but the
-    clean-up when the start did not go through or there is no storage; nothing when no block was started -/
-theorem translated_persist_stop_order (so hs : Bool) :
-    Gen.TrP2.stopActs true true true = [.saveAll, .stamp, .cleanup] ∧
-    Gen.TrP2.stopActs true false hs = [.cleanup] ∧ Gen.TrP2.stopActs true so false = [.cleanup] ∧
-    Gen.TrP2.stopActs false so hs = [] := by
-  unfold Gen.TrP2.stopActs
-  cases so <;> cases hs <;> simp
+/-- (d) ORDER on a working storage: all saves, then the stop time, then the first await of the clean-up — and
+    nothing but the clean-up when the start did not go through or there is no storage; nothing when no block was
+    started.  On a failing storage: an exception of a save or of the stop-time write leaves before the clean-up. -/
+theorem translated_persist_stop_order (so hs sr wr : Bool) :
+    stopActs true true true false false = [.saveAll, .stamp, .cleanup] ∧
+    stopActs true true true true wr = [.fails .saveAll, .propagate] ∧
+    stopActs true true true false true = [.saveAll, .fails .stamp, .propagate] ∧
+    stopActs true false hs sr wr = [.cleanup] ∧ stopActs true so false sr wr = [.cleanup] ∧
+    stopActs false so hs sr wr = [] := by
+  unfold stopActs
+  cases so <;> cases hs <;> cases sr <;> cases wr <;> simp
 
-/-- (d) the translated fragment, run up to the first await, IS the model's `stopBegin` -/
-theorem translated_persist_stop_is_model (c : Persist.Circ) (t : Nat)
+/-- (d) the translated fragment, run up to the first await on a storage with faults `f`, IS the model's
+    `stopBeginF` -/
+theorem translated_persist_stop_is_model (f : Faults) (c : Circ) (t : Nat)
     (hph : c.phase = .running ∨ c.phase = .aborted ∨ c.phase = .failed) :
-    runStop t (Gen.TrP2.stopActs true c.startOk true) c = c.stopBegin t := by
-  unfold Gen.TrP2.stopActs Persist.Circ.stopBegin
-  rcases hph with h | h | h <;> cases hs : c.startOk <;> simp [runStop, h, hs]
+    runStop f t (stopActs true c.startOk true (saveAllF f c.store c.blocks).2 f.write) (c, false)
+      = c.stopBeginF f t := by
+  unfold stopActs Circ.stopBeginF Circ.stopBegin
+  rcases hph with h | h | h <;> cases hs : c.startOk <;> cases hw : f.write <;>
+    cases hx : saveAllF f c.store c.blocks with
+    | mk s x => cases x <;> simp [runStop, h, hs, hw, hx]
+
+/-- …on a working storage that is `stopBegin` -/
+theorem translated_persist_stop_without_faults (c : Circ) (t : Nat)
+    (hph : c.phase = .running ∨ c.phase = .aborted ∨ c.phase = .failed) :
+    runStop {} t (stopActs true c.startOk true false false) (c, false) = (c.stopBegin t, false) := by
+  have h := translated_persist_stop_is_model {} c t hph
+  rw [saveAllF_nofault] at h
+  rw [h]
+  unfold Circ.stopBeginF Circ.stopBegin
+  rcases hph with h | h | h <;> cases hs : c.startOk <;> simp [h, hs, saveAllF_nofault]
 
 end Edzed.TrTie
